@@ -9,22 +9,48 @@ COMMON_NOTE = ("Trusted base (also listed per run in the evidence file): the gov
  "float arithmetic uninterpreted (values are compared bit for bit); unsafe string/byte aliasing idioms axiomatised; lock operations are "
  "no-ops inside sequential obligations; dependency models named in the evidence. ")
 
+T = "contract-based deductive verification: Go-coded contracts on the real functions, VC generation over go/ssa (govc), bit-vector SMT (z3 5.1/4.8, cvc5)"
+def C(text, note, ref): return dict(text=text, note=COMMON_NOTE+note, technique=T, ref=ref)
 claims = {
- "C05": dict(text="Every obligation is a verification condition generated from go/ssa of the real commit package (working tree, -tags verif) and discharged by z3/cvc5 for all inputs: "
-   "for every buffer state, operation kind, offset < 2^31 (every varint length, negative deltas, block switches), value and run start, the real Reader.Next positioned on the bytes the real writer appended "
-   "decodes the same kind, offset and value and stops exactly at the end; writers are append-only and record block headers exactly; typed wrappers and getters are inverse. "
-   "Sequence-level statements follow by the induction written in DESIGN section 6/C05 whose steps are these obligations.",
-   note=COMMON_NOTE+"Not covered by obligations yet: serialisation through iostream/s2 (Buffer/Commit/Log WriteTo/ReadFrom), Swap rewrites, Reader.Range header walk; writeOffset is unrolled 5x with a proved unwinding assertion (complete for uint32).",
-   technique="contract-based deductive verification: Go-coded contracts on the real functions, weakest-precondition style VC generation over go/ssa, bit-vector SMT (z3 5.1/4.8, cvc5)",
-   ref="DESIGN 6/C05"),
- "C01": dict(text="Per-operation contracts of every numeric Apply closure (10 kinds), bool and string Apply, and the typed loaders, discharged for all storage states, buffer states, offsets, values and user merge functions: "
-   "a put stores the value bit for bit at the decoded position and sets presence, merge combines with the stored value (zero when absent) and rewrites the buffer as put(result), delete clears presence and the value, "
-   "nothing else changes; loaders report exactly the present cell and are safe beyond the column.",
-   note=COMMON_NOTE+"Apply loops are verified per decoded operation (loop unrolled to the run written by the real writer, unwinding assertion proved); composition over a run and over transactions is the induction in DESIGN 6/C01. "
-   "Drives the reader with the two shortest offset encodings (others are C05). Not yet under contract: enum/key/record Apply, commitCapacity/Grow coverage, CreateColumn on populated collections.",
-   technique="contract-based deductive verification (govc: go/ssa VC generation + SMT)", ref="DESIGN 6/C01"),
+ "C01": C("Per-operation contracts of every numeric Apply closure (10 kinds), bool, string and key Apply and the typed loaders, discharged for all storage states, buffer states, offsets, values and user merge functions: put stores the value bit for bit at the decoded position and sets presence, merge combines with the stored value (zero when absent), rewrites the buffer as put(result), delete clears presence and value, nothing else changes (frames), the storage invariant (absent cells hold zero) is kept; loaders report exactly the present cell and are safe beyond the column.",
+   "Apply loops are verified per decoded operation (loop unrolled to the run the real writer produced, unwinding assertion proved); composition over a run / transactions is the induction of DESIGN 6/C01. Reader driven with the two shortest offset encodings (all encodings: C05). Not under contract: enum Apply (intmap/xxh3), record marshalling, Grow/commitCapacity loops (CreateColumn coverage was repaired, D9, its obligation is not yet machine-checked).", "DESIGN 6/C01"),
+ "C02": C("Contracts on Collection.Query (error => exactly one rollback, no commit, error returned; nil => exactly one commit), Txn.rollback (recount under the mutex, buffers dropped, nothing emitted, no id drawn, locks released), Collection.free and findMarkers, discharged for all inputs.",
+   "rollback/commit/reset/acquire are replaced by their (assumed) contracts inside Query; that writers only touch transaction buffers and readers only storage is not yet a discharged frame obligation. Known design gaps D3/D4/D15 (reserved offsets visible before commit, failed insert leaves its marker) are not expressed as obligations and therefore neither proved nor reported.", "DESIGN 6/C02"),
+ "C03": C("Per-operation contract of columnIndex.Apply (put => bit := rule(reader on that operation), rule called once; delete => cleared; other kinds and other bits untouched), plus the column Snapshot contracts the back-fill of CreateIndex consumes (one put per present cell at its absolute offset with the stored value, for numeric, bool, string and enum columns) and the Snapshot wrapper (skips exactly indexes).",
+   "CreateIndex's loop over blocks, commitUpdates' second pass and commitMarkers' propagation of row deletes are not yet under contract (composition argued in DESIGN 6/C03). bitmap.Range is a model (per-element obligations for an arbitrary present cell).", "DESIGN 6/C03"),
+ "C04": C("Contracts on the locked iteration skeleton of every filter (rangeRead, rangeReadPair: one call per block of the selection, ascending, exact block window, unbounded loop cut by an invariant), Txn.Range (callback gets block start + bit, cursor on that row, row selected) and the typed loaders.",
+   "The per-block Boolean algebra of With/Without/Union/WithUnion, the typed filters and the aggregates are not yet under contract (bitmap And/AndNot models exist); D10 (WithUnion with one column) was repaired, D11 (aggregates ignore presence) is not expressed. This check therefore decides the iteration/cursor half of the statement only.", "DESIGN 6/C04"),
+ "C05": C("Every obligation is a verification condition generated from go/ssa of the real commit package and discharged for all inputs: for every buffer state, operation kind, offset < 2^31 (every varint length, negative deltas, block switches), value and run start, the real Reader.Next positioned on the bytes the real writer appended decodes the same kind, offset and value and stops exactly at the end; writers are append-only and record block headers exactly; typed wrappers and getters are inverse; IndexAtChunk is the offset inside the block.",
+   "Not covered by obligations: serialisation through iostream/s2 (Buffer/Commit/Log WriteTo/ReadFrom byte layouts), Swap rewrites on their own (covered only through the numeric merge lemmas of C01), Reader.Range's header walk; writeOffset is unrolled 5x with a proved unwinding assertion (complete for uint32).", "DESIGN 6/C05"),
+ "C06": C("Contracts on the Replay callback (marks the commit's block, takes over every non-empty buffer in order: unbounded loop with invariant and step clause), on the commit phase run for a replayed transaction (touches only the commit's block - repaired defect D8), on the emission step (each emitted commit carries its block and the id stored for it, inside the latch) and on Commit/Buffer Clone (deep copy, id kept).",
+   "Equality of replica and primary state is the induction of DESIGN 6/C06 over these obligations plus C01/C03/C11/C12; interleavings are covered only through the lock-invariant meta-theorem (2.9). D2 (size-changing string merge followed by a store to the same row) is a known design defect not expressed as an obligation.", "DESIGN 6/C06"),
+ "C07": C("Contracts on every column kind's Snapshot (numeric, bool, string, enum: each appended operation is a put of a present cell at its absolute offset with the stored value), the Snapshot wrapper (skips exactly indexes, resets and names the buffer), and the per-block restore step (a failed read is an error; the block is marked).",
+   "writeState/readState token agreement (column count, order) and the s2/iostream byte layout are not under contract; bitmap.Range is a model (arbitrary present cell).", "DESIGN 6/C07"),
+ "C08": C("Contracts on rangeWrite (commit id drawn inside the block latch, larger than every earlier id, stored for the block before the delegate runs, latch exclusive, collection mutex not held), on the emission step (recorded/emitted inside the latch with the stored id), on commit.Next and on Restore's reconciliation (replays a logged commit iff its id exceeds the stored id).",
+   "Schedules are covered through the lock-invariant meta-theorem of DESIGN 2.9 (assumed): the obligations make its antecedent true for the commit protocol; no interleaving is enumerated. readChunk/chunks and the recorder window are not yet under contract (D14 repaired).", "DESIGN 6/C08"),
+ "C09": C("The merge clauses of every numeric and the string Apply (stored value := merge(stored or zero, delta) for every deterministic user merge function, buffer rewritten as put(result), exactly one read-modify-write per decoded merge) and the rangeWrite contract (the delegate runs inside the exclusive latch of the block).",
+   "Mutual exclusion => serialisability of the per-block critical sections is the assumed meta-theorem (2.9). Float addition is uninterpreted (the fold is stated with the merge function applied in latch order).", "DESIGN 6/C09"),
+ "C10": C("Contracts on QueryAt (callback runs with the cursor on the row and the read latch of the row's block held, released afterwards, error returned), rangeRead/rangeReadPair (read latch of exactly the visited block held during the delegate), Txn.Range (latch of the row's block) and rangeWrite (exclusive latch during the whole per-block commit step).",
+   "The step from 'latch held' to 'no torn read' is the lock-invariant meta-theorem (2.9, assumed). Ascend and CreateIndex take no latch (D17, known design gap, not expressed).", "DESIGN 6/C10"),
+ "C11": C("Contracts on findFreeIndex (returned offset is unoccupied), next (offset was free, is marked, count incremented, other bits kept, mutex released), free (bit cleared, recount under the mutex), the delete and merge clauses of every Apply (delete clears presence and value; merge into an absent cell starts from zero - repaired defect D5).",
+   "findFreeIndex's scan branch assumes the pigeonhole consequence of the mutex invariant popcount(fill) < count (no popcount theory); commitMarkers' two critical sections and concurrent next() are covered only by the lock discipline (2.9). D4 (failed insert keeps its marker) is not expressed.", "DESIGN 6/C11"),
+ "C12": C("Per-operation contract of columnKey.Apply (put stores the key, makes it resolve to the row and removes the row's previous key - repaired defect D16a; delete clears the cell and removes the key; unrelated keys keep their mapping) and contracts on InsertKey/UpsertKey/QueryKey/DeleteKey (error iff the key does / does not resolve; exactly one insert or one visit of the resolved row).",
+   "String keys are identified by an abstract content id (equal strings: equal ids; the link from ids to bytes is assumed). Uniqueness under two InsertKey of one key inside one transaction or concurrently (D16b/c) is a known design gap: the existence check consults the committed table only; not expressed as an obligation.", "DESIGN 6/C12"),
+ "C13": C("Over the sticky-failure token-stream model of iostream: Commit.ReadFrom returns nil only if every read succeeded and reports every failure; Log.Range (unbounded loop, invariant) hands only completely read commits to the callback and returns nil only at a clean end of stream; the per-block restore step returns an error whenever a read failed (so Query rolls the partial block back); Restore replays iff the id is greater.",
+   "Truncation is modelled as: some read fails and every later read fails (assumed; s2 delivers whole blocks or an error). Byte-level prefixes, panics inside s2/iostream and allocation for a corrupted length token (declared maypanic in readChunksFrom) are outside the contracts.", "DESIGN 6/C13"),
+ "C14": C("Contract on Collection.Snapshot over ghost descriptor/temp-file counters and nondeterministic failures of every step: the error of the failing step is returned, the recorder pointer set by this call is cleared on every way out, no descriptor and no temporary file remains, a call during another snapshot fails without touching the recorder (repaired defect D18).",
+   "os/commit.Log file operations are models (OpenTemp/Close/Copy/Remove/Name); writeState is replaced by an assumed contract (returns an arbitrary error); its own error propagation is not yet under contract.", "DESIGN 6/C14"),
+ "C15": C("Contracts on the commit step: every commit reaching a logger is emitted inside the latch of its own block with the id stored for that block and a non-zero id; exactly one emission per visited dirty block when rows changed or updates were applied, none otherwise; rollback emits nothing and draws no id; commit.Next increments (ids distinct, increasing); Commit.Clone keeps the id (repaired D7); the id is drawn inside the latch (repaired D13).",
+   "bitmap.Range over the dirty set is a model (one arbitrary dirty block per check; once-per-block is the dependency's assumed contract). Per-block order across writers follows from the latch via the meta-theorem (2.9).", "DESIGN 6/C15"),
+ "C16": C("Contract on the comparator built by newSortIndex (irreflexive, asymmetric, total on items that differ in key or offset - repaired defect D12 - and ordering by key first) and the per-operation contract of columnSortIndex.Apply over a ghost model of the tree (put removes the row's previous entry and inserts (value, offset), delete removes the entry, other kinds nothing).",
+   "btree is a model (ordered set modulo the comparator; Scan order assumed). Ascend's filtering by the selection is not yet under contract; string order is an uninterpreted strict total order on content ids (transitivity not axiomatised, not needed by the obligations).", "DESIGN 6/C16"),
+ "C17": C("Contracts on the cleanup step (the body of the vacuum callback, addressed by its SSA name): a delete is queued iff the row holds a non-zero deadline strictly before the clock value, for exactly the row under the cursor; ExpiresAt reports a deadline iff present and non-zero; writeTTL stores now+ttl or 0; Extend is a merge of the delta (then C01/C09).",
+   "Safety half only: that expired rows are removed within a few intervals is wall-clock liveness of a goroutine with select (outside contracts). time.Time is abstracted to nanoseconds (model). The race between a cleanup's read and a concurrent Extend (D19) is an observation, not an obligation.", "DESIGN 6/C17"),
+ "C18": C("Ghost lock-set contracts on the locking functions: QueryAt, rangeRead, rangeReadPair, rangeWrite, the commit step, rollback, next and free acquire in rank order (block latch < collection mutex < column locks), never twice, and release everything on every path (checked at every Lock/Unlock model and at every return).",
+   "Data-race freedom follows from these obligations only under the guard map and meta-theorem of DESIGN 2.9 (assumed); accesses that bypass their guard (D17: readers of a column's chunk list vs Grow, enum intern table, CreateIndex/Ascend without latch) are known design gaps and are not expressed as obligations.", "DESIGN 6/C18"),
+ "C19": C("Per-operation contract of columnTrigger.Apply: the callback is called exactly once for a put and for a delete with the reader positioned on that operation (offset, kind, value) and not at all for any other kind.",
+   "commitUpdates' second pass (triggers see the merge-rewritten buffer) and commitMarkers' propagation of row deletes are argued in DESIGN 6/C19, not yet under contract; D2 affects the order of reports after a size-changing string merge (known design defect, not expressed).", "DESIGN 6/C19"),
 }
-
 checks=[]
 for p in props:
     if p in claims:
